@@ -22,6 +22,7 @@ type spelling struct {
 	qualified bool // keyspace-qualified table
 	lead      bool // leading white space
 	random    bool // every dimension drawn per row
+	comments  bool // CQL comments between tokens (at least two block comments, a line comment at the end)
 }
 
 // the dimensions of a spelling, by name (used to say which dimension an unstable answer depends on)
@@ -46,6 +47,9 @@ var spellings = []spelling{
 	{name: "S5:MiXeD leading-blank tight quoted-identifiers", kwcase: 2, tight: true, lead: true, quoted: true},
 	{name: "S6:random", random: true},
 	{name: "S7:random", random: true},
+	// comments are white space to a CQL lexer; only soundness is demanded of this spelling (a statement the classifier
+	// cannot read with comments in it is merely reported not idempotent)
+	{name: "S8:UPPER comments", kwcase: 0, comments: true},
 }
 
 type tokKind int
@@ -65,10 +69,11 @@ type tok struct {
 }
 
 type emitter struct {
-	sp   spelling
-	toks []tok
-	lit  *rand.Rand // literal / name choices: identical for all spellings of a row
-	srnd *rand.Rand // spelling-only randomness (white space, mixed case)
+	sp     spelling
+	toks   []tok
+	lit    *rand.Rand // literal / name choices: identical for all spellings of a row
+	srnd   *rand.Rand // spelling-only randomness (white space, mixed case)
+	blocks int        // block comments written so far (comments spelling)
 }
 
 func (e *emitter) cased(w string) string {
@@ -109,6 +114,14 @@ func (e *emitter) op(s string)   { e.toks = append(e.toks, tok{s, tOp}) }
 func (e *emitter) glue(s string) { e.toks = append(e.toks, tok{s, tGlue}) }
 
 func (e *emitter) ws() string {
+	if e.sp.comments {
+		opts := []string{" ", " ", " /* c */ ", "/**/", " /* a * b / c */ ", " -- note\n", " // note\n", " /* x\n y */ "}
+		o := opts[e.srnd.Intn(len(opts))]
+		if strings.HasPrefix(strings.TrimSpace(o), "/*") {
+			e.blocks++
+		}
+		return o
+	}
 	if !e.sp.wild {
 		return " "
 	}
@@ -148,6 +161,12 @@ func (e *emitter) text() string {
 			b.WriteString(e.ws())
 		}
 		b.WriteString(t.s)
+	}
+	if e.sp.comments {
+		for ; e.blocks < 2; e.blocks++ {
+			b.WriteString(" /* tail */")
+		}
+		b.WriteString(" -- end")
 	}
 	switch e.sp.semi {
 	case 1:
